@@ -290,6 +290,16 @@ func c05Spell(words []string, i int, style string) string {
 			ws[j] = c05Title(w)
 		}
 		return "X-" + strings.Join(ws, "-") + idx
+	case "dotted": // "parent.child": the value sits in a nested object of the document (documented lookup of lib/mapping)
+		var b strings.Builder
+		for j, w := range words {
+			if j == 0 {
+				b.WriteString(w)
+			} else {
+				b.WriteString(c05Title(w))
+			}
+		}
+		return "dot" + idx + "." + b.String() + idx
 	case "usnake": // Upper_Snake
 		ws := make([]string, len(words))
 		for j, w := range words {
